@@ -12,6 +12,8 @@ import _griffe.finder as finder  # noqa: E402
 from _griffe.loader import GriffeLoader  # noqa: E402
 
 RUNTIME_F = {
+    # the runtime name is an import that cannot be resolved (nothing named missing_pkg is loaded): merging must neither raise nor lose the module
+    "alias": "from missing_pkg.impl import f\n",
     "doc": 'def f(a, b=1, *args, **kwargs):\n    """runtime doc"""\n    return a\n',
     "nodoc": "def f(a, b=1, *args, **kwargs):\n    return a\n",
     None: "",
@@ -19,6 +21,8 @@ RUNTIME_F = {
 STUB_F = {
     "same": 'def f(a: int, b: str = ..., extra: bytes = ..., *args: float, **kwargs: bool) -> list[int]:\n    """stub doc"""\n',
     "overloads": "from typing import overload\n@overload\ndef f(a: int) -> int: ...\n@overload\ndef f(a: str) -> str: ...\n",
+    # overloads followed by the implementation signature (the usual shape of a stub file)
+    "overloads_impl": "from typing import overload\n@overload\ndef f(a: int) -> int: ...\n@overload\ndef f(a: str) -> str: ...\ndef f(a: int | str, b: str = ...) -> int | str: ...\n",
     "attr": "f: int\n",          # kind mismatch
     None: "",
 }
@@ -112,7 +116,12 @@ def expected_problems(key, mod, summ):
         pr.append("merged result is the stubs module, not the runtime module")
     if rf and "f" not in summ:
         pr.append("runtime member f lost")
-    if rf and sf in ("same", "overloads") and "f" in summ and summ["f"].get("kind") == "function":
+    if rf and sf == "overloads_impl" and "f" in summ and isinstance(summ["f"], dict) and summ["f"].get("kind") == "function":
+        if summ["f"]["overloads"] != 2:
+            pr.append(f"overloads not taken from stubs that also hold the implementation signature ({summ['f']['overloads']})")
+        if dict(summ["f"]["params"]).get("a") != "int | str" or summ["f"]["returns"] != "int | str":
+            pr.append(f"annotations of the implementation signature not taken from stubs: {summ['f']['params']} -> {summ['f']['returns']}")
+    if rf and sf in ("same", "overloads") and "f" in summ and isinstance(summ["f"], dict) and summ["f"].get("kind") == "function":
         f = summ["f"]
         params = dict(f["params"])
         if sf == "same":
@@ -125,7 +134,11 @@ def expected_problems(key, mod, summ):
                 pr.append(f"docstring {f['doc']!r}, expected {want_doc!r}")
         if sf == "overloads" and f["overloads"] != 2:
             pr.append(f"overloads not taken from stubs ({f['overloads']})")
-    if rf and sf == "attr" and summ.get("f", {}).get("kind") != "function":
+    if rf == "alias":
+        # the runtime member is an (unresolvable) import: it stays what it is, whatever the stubs say about that name
+        if not (isinstance(summ.get("f"), tuple) and summ["f"][0] == "alias"):
+            pr.append(f"the runtime import f was replaced or lost: {summ.get('f')}")
+    elif rf and sf == "attr" and summ.get("f", {}).get("kind") != "function":
         pr.append("kind mismatch replaced the runtime member")
     if rc and "C" not in summ:
         pr.append("runtime class C lost")
